@@ -70,6 +70,15 @@ check("C01", "served content hashes to its digest", "exploration",
       "DESIGN.md §3 C01",
       [R("^TestC01$", 3000, 120000, steps=25)])
 
+check("C02", "acknowledged pushes read back identically", "exploration",
+      "rapid state machine vs reference model (bytes, length, digest, media type, range slices) over push/delete/collect/restart histories",
+      "Randomised model-based search over histories of pushes, re-pushes, tag moves, deletes, collections and restarts on both stores, with manifest sizes around the "
+      "configured limit (known and unknown Content-Length), generated Accept lists and byte ranges; every acknowledged item is read back by digest and tag after every step.",
+      "Trusted: the naive map model; collections run under a retain-everything policy here (policy-dependent retention is C05's oracle); by-digest visibility of manifests "
+      "affected by open finding C02/orphaned-child is not asserted (counted in evidence).",
+      "DESIGN.md §3 C02",
+      [R("^TestC02$", 2000, 60000, steps=40)])
+
 NOT_APPLICABLE = {}
 
 # --------------------------------------------------------------------------- helpers
